@@ -24,13 +24,15 @@ open Asynkit.Proto Asynkit.Ctx
     start, every resumption by send/throw, athrow/aclose, throw()/close() cleanup) form one chain
     that starts at the supplied mapping; the supplied Context ends up holding exactly the end of
     that chain (all the coroutine's writes, nothing else); and the caller's mapping is `c0`
-    changed by the caller's own writes only. -/
-theorem ctx_every_segment (b : EBody) (m0 c0 : Mapping) (ops : List Op) :
-    ∃ view, Chain m0 (run repaired b (some m0) c0 ops).segs view ∧
-      (run repaired b (some m0) c0 ops).w.ctx = some view ∧
-      (run repaired b (some m0) c0 ops).cur = ops.foldl callerEffect c0 := by
-  obtain ⟨v0, h0, c0', e0⟩ := init_good b m0 c0
-  obtain ⟨v1, h1, c1, e1⟩ := runFrom_good ops (init repaired b (some m0) c0).w v0 h0 (init repaired b (some m0) c0).cur
+    changed by the caller's own writes only.  `cont` = whether the awaiter is a plain `__await__`
+    generator / delegating coroutine or the `_Continuation` that `coro_eager` gives to its Task. -/
+theorem ctx_every_segment (b : EBody) (m0 c0 : Mapping) (ops : List Op) (cont : Bool) :
+    ∃ view, Chain m0 (run repaired b (some m0) c0 ops cont).segs view ∧
+      (run repaired b (some m0) c0 ops cont).w.ctx = some view ∧
+      (run repaired b (some m0) c0 ops cont).cur = ops.foldl callerEffect c0 := by
+  obtain ⟨v0, h0, c0', e0⟩ := init_good b m0 c0 cont
+  obtain ⟨v1, h1, c1, e1⟩ := runFrom_good ops (init repaired b (some m0) c0 cont).w v0 h0
+    (init repaired b (some m0) c0 cont).cur
   refine ⟨v1, ?_, ?_, ?_⟩
   · exact Chain.append c0' c1
   · exact h1
@@ -51,16 +53,16 @@ theorem ctx_every_segment_step {b : EBody} (w : CS b) (view : Mapping) (h : w.ct
     caller's mapping: two runs that differ only in the caller's initial mapping produce the same
     outcomes, the same segments and the same final CoroStart (the caller's own later writes are
     part of `ops` and equally irrelevant, by the chain property). -/
-theorem ctx_caller_noninterference (b : EBody) (m0 c0 c0' : Mapping) (ops : List Op) :
-    (run repaired b (some m0) c0 ops).outs = (run repaired b (some m0) c0' ops).outs ∧
-    (run repaired b (some m0) c0 ops).segs = (run repaired b (some m0) c0' ops).segs ∧
-    (run repaired b (some m0) c0 ops).w = (run repaired b (some m0) c0' ops).w := by
-  have hi : SameButCur (init repaired b (some m0) c0) (init repaired b (some m0) c0') := by
+theorem ctx_caller_noninterference (b : EBody) (m0 c0 c0' : Mapping) (ops : List Op) (cont : Bool) :
+    (run repaired b (some m0) c0 ops cont).outs = (run repaired b (some m0) c0' ops cont).outs ∧
+    (run repaired b (some m0) c0 ops cont).segs = (run repaired b (some m0) c0' ops cont).segs ∧
+    (run repaired b (some m0) c0 ops cont).w = (run repaired b (some m0) c0' ops cont).w := by
+  have hi : SameButCur (init repaired b (some m0) c0 cont) (init repaired b (some m0) c0' cont) := by
     simp only [init, inCtx, repaired]; exact ⟨rfl, rfl, rfl⟩
   obtain ⟨i1, _, i3⟩ := hi
-  obtain ⟨v0, h0, _, _⟩ := init_good b m0 c0
-  obtain ⟨k1, k2, k3⟩ := runFrom_indep ops (init repaired b (some m0) c0).w v0 h0
-    (init repaired b (some m0) c0).cur (init repaired b (some m0) c0').cur
+  obtain ⟨v0, h0, _, _⟩ := init_good b m0 c0 cont
+  obtain ⟨k1, k2, k3⟩ := runFrom_indep ops (init repaired b (some m0) c0 cont).w v0 h0
+    (init repaired b (some m0) c0 cont).cur (init repaired b (some m0) c0' cont).cur
   simp only [run]
   rw [← i1, i3]
   exact ⟨k2, by rw [k3], k1⟩
@@ -85,9 +87,10 @@ theorem ctx_none_shared {b : EBody} (W : Wraps) (w : CS b) (h : w.ctx = none) (o
   | callerSet x v => exact ⟨h, rfl, rfl⟩
 
 /-- … and the construction itself (`_start`) shares the caller's mapping too. -/
-theorem ctx_none_shared_start (W : Wraps) (b : EBody) (cur : Mapping) :
-    (init W b none cur).w.ctx = none ∧ Chain cur (init W b none cur).segs (init W b none cur).cur :=
-  init_shared W b cur
+theorem ctx_none_shared_start (W : Wraps) (b : EBody) (cur : Mapping) (cont : Bool) :
+    (init W b none cur cont).w.ctx = none ∧
+    Chain cur (init W b none cur cont).segs (init W b none cur cont).cur :=
+  init_shared W b cur cont
 
 /-- **No context = native await.**  `coro_await(coro)` and `async def ref(c): return await c`
     produce, for every body, every sequence of resumptions and every caller mapping, the same
@@ -115,7 +118,7 @@ theorem eager_private_copy (b : EBody) (c0 : Mapping) (ops : List Op) :
     ∃ view, Chain c0 (eagerRun repaired b c0 ops).segs view ∧
       (eagerRun repaired b c0 ops).w.ctx = some view ∧
       (eagerRun repaired b c0 ops).cur = ops.foldl callerEffect c0 :=
-  ctx_every_segment b c0 c0 ops
+  ctx_every_segment b c0 c0 ops true
 
 /-! ### Non-vacuity and the witnesses of the defects repaired by fixes/C04-context-run.patch -/
 
@@ -139,6 +142,11 @@ example : (run repaired (scriptBody demo) none zero [.awSend 0]).w.ctx = none :=
 -- repaired code: clean-up through close() writes v2 := 4 into the supplied Context, not the caller's
 example : ((run repaired (scriptBody demo) (some zero) zero [.sclose]).cur 2,
            ((run repaired (scriptBody demo) (some zero) zero [.sclose]).w.ctx.getD zero) 2) = (0, 4) := by decide
+
+-- eager: a throw before the Task's first step is delivered to the coroutine, inside the private copy
+example : ((eagerRun repaired (scriptBody demo) zero [.awThrow (.other 1)]).cur 0,
+           ((eagerRun repaired (scriptBody demo) zero [.awThrow (.other 1)]).w.ctx.getD zero) 0,
+           (eagerRun repaired (scriptBody demo) zero [.awThrow (.other 1)]).segs.length) = (0, 9, 2) := by decide
 
 /-- The tree before the fix: `close()` ran the clean-up in the caller's context. -/
 theorem original_close_leaks :
